@@ -17,6 +17,7 @@ Definition spec_view (c : case) : outcome V := let '(numtab, x, _, _) := c in re
 Definition case_ok (c : case) : bool :=
   let '(_, x, dom, seen) := c in
   match dom with Some y => xml_eqb x y | None => true end &&
+  (let '(numtab, _, _, _) := c in forallb (geom_fits numtab) (geometry_elems (erase_now x))) &&   (* guard of C05_load_is_read_guard *)
   match model_view c, spec_view c with
   | Ok a, Ok b => V_eqb a seen && V_eqb b seen
   | _, _ => false
